@@ -12,8 +12,14 @@ mod dom_comp;
 mod dom_cosim;
 mod dom_pipeline;
 mod dom_store;
+mod dom_synth;
 mod dom_combloop;
 mod dom_pretty;
+mod emitctx;
+mod svlex;
+mod dom_fmt;
+mod dom_smap;
+mod dom_emitopts;
 mod vsets;
 mod dom_fragment;
 mod dom_order;
@@ -37,10 +43,14 @@ fn main() {
     let opts = util::Opts::parse(&args[1..]);
     let rc = match args[0].as_str() {
         "store" => dom_store::main(&opts),
+        "synth" => dom_synth::main(&opts),
         "wide" => dom_wide::main(&opts),
         "engexpr" => dom_engexpr::main(&opts),
         "combloop" => dom_combloop::main(&opts),
         "pretty" => dom_pretty::main(&opts),
+        "fmt" => dom_fmt::main(&opts),
+        "smap" => dom_smap::main(&opts),
+        "emitopts" => dom_emitopts::main(&opts),
         "fragment" => dom_fragment::main(&opts),
         "order" => dom_order::main(&opts),
         "tokens" => dom_tokens::main(&opts),
